@@ -159,3 +159,6 @@ func KeyOf(q *dns.Msg) ([]byte, error) {
 	}
 	return es[0].GetKey(), nil
 }
+
+// Wrap gives API access to an existing cache plugin instance.
+func Wrap(c *cacheplugin.Cache) *Plugin { return &Plugin{C: c, api: c.Api()} }
